@@ -128,6 +128,15 @@ FACTORIES = {
     'visibility': (vis_fs.factory, vis_fs.visibility_function_registry),
     'reset': (reset_fs.factory, reset_fs.reset_function_registry),
 }
+BUILTIN_NAMES = {
+    'reward': ['reduce', 'reduce_sum', 'overlap', 'living_reward', 'reach_exit', 'bump_moving_obstacle', 'proportional_to_distance', 'getting_closer',
+               'getting_closer_shortest_path', 'bump_into_wall', 'actuate_door', 'pickndrop', 'reach_exit_memory'],
+    'terminating': ['reduce', 'reduce_any', 'reduce_all', 'overlap', 'reach_exit', 'bump_moving_obstacle', 'bump_into_wall'],
+    'transition': ['chain', 'move_agent', 'turn_agent', 'pickndrop', 'move_obstacles', 'actuate_door', 'actuate_box', 'teleport'],
+    'observation': ['from_visibility', 'fully_transparent', 'partially_occluded', 'raytracing', 'stochastic_raytracing'],
+    'visibility': ['fully_transparent', 'partially_occluded', 'raytracing', 'stochastic_raytracing'],
+    'reset': ['empty', 'rooms', 'dynamic_obstacles', 'keydoor', 'crossing', 'teleport', 'memory', 'memory_rooms'],
+}
 falsy_fin = st.sampled_from([0.0, 0.0, -0.0]) | gen.fin
 
 
@@ -147,21 +156,34 @@ def strat_factory(draw, tier):
         for k in [p for p in inspect.signature(reward_fs.reward_function_registry[name]).parameters if p.startswith('reward')]:
             if k not in kw and draw(st.integers(0, 2)) == 0:
                 kw[k] = draw(falsy_fin)
+        if draw(st.integers(0, 5)) == 0:
+            # the composite rewards, obtained by name like any other component
+            parts = draw(st.lists(gen.reward_spec_s(space, ('Exit', 'Beacon'), allow_memory=True), min_size=1, max_size=3))
+            name = draw(st.sampled_from(['reduce_sum', 'reduce']))
+            kw = {'reward_functions': parts}
+            if name == 'reduce':
+                kw['reduction'] = draw(st.sampled_from(['sum', 'max', 'min']))
     elif kind == 'terminating':
-        spec = draw(gen.term_spec_s(space, depth=0))
+        spec = draw(gen.term_spec_s(space, depth=1))
         name = spec.pop('name')
         kw = spec
+        if name in ('reduce_any', 'reduce_all') and draw(st.booleans()):
+            name, kw = 'reduce', dict(kw, reduction=draw(st.sampled_from(['any', 'all'])))
     elif kind == 'transition':
-        name = draw(st.sampled_from(list(M.TRANSITIONS)))
+        name = draw(st.sampled_from(list(M.TRANSITIONS) + ['chain']))
+        if name == 'chain':
+            kw = {'transition_functions': [{'name': n} for n in draw(gen.chain_s())]}
     elif kind == 'observation':
-        name = draw(st.sampled_from(['fully_transparent', 'partially_occluded', 'raytracing', 'stochastic_raytracing']))
+        name = draw(st.sampled_from(['fully_transparent', 'partially_occluded', 'raytracing', 'stochastic_raytracing', 'from_visibility']))
         kw = {'area': draw(gen.area_s(3, ymax_zero=True))}
+        if name == 'from_visibility':
+            kw['visibility_function'] = {'name': draw(st.sampled_from(['fully_transparent', 'partially_occluded', 'raytracing', 'stochastic_raytracing']))}
     elif kind == 'visibility':
         name = draw(st.sampled_from(['fully_transparent', 'partially_occluded', 'raytracing', 'stochastic_raytracing']))
         if name == 'raytracing' and draw(st.booleans()):
             kw = {'absolute_counts': draw(st.booleans()), 'threshold': draw(st.sampled_from([0, 1, 2, 0.0, 0.5, 1.0]))}
     else:
-        name = draw(st.sampled_from(['empty', 'dynamic_obstacles', 'keydoor', 'teleport', 'crossing']))
+        name = draw(st.sampled_from(['empty', 'dynamic_obstacles', 'keydoor', 'teleport', 'crossing', 'rooms', 'memory', 'memory_rooms']))
         kw = draw(configs.reset_mod_s(name))
         if name == 'crossing':
             kw['object_type'] = 'Wall'
@@ -170,12 +192,18 @@ def strat_factory(draw, tier):
 
 
 def _real_kw(kw):
-    return envs._convert_params(kw)
+    out = envs._convert_params(kw)
+    if 'reduction' in out:
+        out['reduction'] = {'sum': sum, 'max': max, 'min': min, 'any': any, 'all': all}[out['reduction']]
+    return out
 
 
 def oracle_factory(case, ctx):
     kind, name = case['kind'], case['name']
     factory, registry = FACTORIES[kind]
+    missing = [n for n in registry if n not in BUILTIN_NAMES[kind] and registry[n].__module__.startswith('gym_gridverse')]
+    if missing:
+        ctx.ev.count('unlisted_builtin:' + ','.join(missing))
     f = registry[name]
     accepted = set(inspect.signature(f).parameters)
     kw = _real_kw(case['kw'])
@@ -226,7 +254,7 @@ def oracle_factory(case, ctx):
     else:
         ctx.fail(f'{kind} factory accepted the unknown name "{name}_nope"', {'kind': 'factory_reject'})
     falsy = any(isinstance(v, (int, float)) and not isinstance(v, bool) and v == 0 for v in case['kw'].values()) or any(v is False for v in case['kw'].values())
-    ctx.ev.case(case, nt=bool(extra) or falsy, classes=['kind:' + kind] + (['unaccepted_param'] if extra else []) + (['falsy_param'] if falsy else []))
+    ctx.ev.case(case, nt=bool(extra) or falsy, classes=['kind:' + kind, f'name:{kind}:{name}'] + (['unaccepted_param'] if extra else []) + (['falsy_param'] if falsy else []))
 
 
 # ------------------------------------------------------------------ (6) corruptions are rejected
@@ -337,9 +365,9 @@ CHECKS = [
     Check('differential_perturbed', oracle_diff, strategy=strat_diff, examples={'quick': 100, 'thorough': 300}, shards={'quick': 8, 'thorough': 16},
           rule='valid perturbations (non-square shapes, other counts, colour subsets, re-ordered action sub-lists, extra/reversed transitions, other observation functions/areas, scaled rewards) x seeds x generated action lists',
           required=['perturbed', 'mod:reset', 'mod:actions', 'mod:reverse_transitions', 'mod:vis']),
-    Check('component_factories', oracle_factory, strategy=strat_factory, examples={'quick': 300, 'thorough': 1200}, shards={'quick': 4, 'thorough': 16},
+    Check('component_factories', oracle_factory, strategy=strat_factory, examples={'quick': 400, 'thorough': 1200}, shards={'quick': 4, 'thorough': 16},
           rule='factory(name, **kw) for all six component kinds with accepted, unaccepted and falsy-valued parameters == underlying function with the accepted parameters; missing required / unknown name -> ValueError',
-          required=['unaccepted_param', 'falsy_param', 'kind:reward', 'kind:reset', 'kind:visibility']),
+          required=['unaccepted_param', 'falsy_param'] + [f'name:{k}:{n}' for k, (_, reg) in FACTORIES.items() for n in BUILTIN_NAMES[k]]),
     Check('corruptions', oracle_corrupt, enumerate=enum_corrupt, shards={'quick': 8, 'thorough': 16}, exhaustive=True,
           rule='every shipped file x every systematic corruption (unknown component names at every position, each required parameter deleted, missing sections, malformed shapes/layouts, unknown/duplicate/empty colours, objects and actions, unknown object types and distance functions): SchemaError or ValueError'),
 ]
